@@ -4,9 +4,10 @@
    fn 4    cluster_prediction.filter_result_multiple
    fn 5    cluster_prediction.filter_results
    fn 6    domain_identification.filter_nonterminal_docking_domains
+   fn 7    hmmscan_refinement.HMMResult.merge
    plus, on every implementation output, the decidable specifications of coq/C13/Model.v
-   (fn 101/102/103) and the finding-class detector (fn 111/112), and a second call of the
-   implementation on a shuffled copy of the input (order independence of the implementation)."""
+   (fn 101/102/103/107), and a second call of the implementation on a shuffled copy of the input
+   (order independence of the implementation)."""
 import json
 import types
 
@@ -17,17 +18,20 @@ PROP = 13
 EV_UNIT = 1e-10
 FN_NAME = {1: "refine_hmmscan_results(neighbour_mode=True)", 2: "refine_hmmscan_results(neighbour_mode=False)",
            3: "hmmer.remove_overlapping", 4: "filter_result_multiple", 5: "filter_results",
-           6: "filter_nonterminal_docking_domains"}
+           6: "filter_nonterminal_docking_domains", 7: "HMMResult.merge"}
 
 KNOWN_TEXT = {
     "greedy_replacement_margin": "refine_hmmscan_results returns hits overlapping by more than 20% of the longer profile: "
                                  "_remove_overlapping replaces `previous` without re-checking the hit before it",
+}
+# repaired classes (F41, F42, F43): nothing is suppressed for them; a case of one of them is a counterexample
+REPAIRED_TEXT = {
     "merge_truncates": "HMMResult.merge of a hit with a nested or equal-start fragment of the same profile returns a hit "
-                       "that does not span both (end of the first operand or of the later hit, not the maximum)",
-    "hmmer_first_short_duplicate": "hmmer.remove_overlapping returns the first hit twice when it is shorter than "
-                                   "overlap_limit (the grouping loop re-visits hits[0] and closes a group holding only it)",
-    "hmmer_equal_start_order": "hmmer.remove_overlapping returns kept hits with equal protein_start in the order of the input "
-                               "list (final sort by protein_start only); the set of kept hits does not depend on the order",
+                       "that does not span both (class merge_truncates, repaired as F41)",
+    "hmmer_first_short_duplicate": "hmmer.remove_overlapping returns a hit more often than the input list holds it "
+                                   "(class hmmer_first_short_duplicate, repaired as F42)",
+    "hmmer_equal_start_order": "hmmer.remove_overlapping: the result depends on the order of the input list "
+                               "(class hmmer_equal_start_order, repaired as F43)",
 }
 
 
@@ -391,6 +395,44 @@ def enc_docking(cds):
     return flat
 
 
+# ---------------------------------------------------------------- fn 7 : HMMResult.merge
+
+def impl_merge(first, second):
+    """ first, second: (prof, start, end, evalue, 2*score) """
+    from antismash.common.hmmscan_refinement import HMMResult
+    objs = [HMMResult(f"p{h[0]:02d}", h[1], h[2], h[3] * EV_UNIT, h[4] / 2) for h in (first, second)]
+    try:
+        merged = objs[0].merge(objs[1])
+    except Exception as exc:  # pylint: disable=broad-except
+        return [1, err_code(exc)]
+    evalue = round(merged.evalue / EV_UNIT)
+    assert evalue * EV_UNIT == merged.evalue and (merged.bitscore * 2).is_integer()
+    return [0, int(merged.hit_id[1:]), merged.query_start, merged.query_end, evalue, int(merged.bitscore * 2)]
+
+
+def gen_merge(rng):
+    prof = rng.randrange(3)
+    start = rng.randint(0, 50)
+    first = (prof, start, start + rng.randint(1, 60), rng.choice([1, 2, 5, 10]), rng.choice([20, 40, 41, 100]))
+    kind = rng.random()
+    if kind < 0.25:      # equal start
+        start2 = first[1]
+    elif kind < 0.5:     # nested / overlapping
+        start2 = rng.randint(first[1], first[2])
+    elif kind < 0.75:    # before
+        start2 = max(0, first[1] - rng.randint(0, 30))
+    else:                # after
+        start2 = first[2] + rng.randint(0, 30)
+    end2 = rng.choice([first[2], start2 + rng.randint(1, 80), start2 + 1, max(start2 + 1, first[2] - rng.randint(0, 10))])
+    second = (prof if rng.random() < 0.97 else (prof + 1) % 3, start2, end2, rng.choice([1, 2, 5, 10]),
+              rng.choice([20, 40, 41, 100]))
+    return (first, second) if rng.random() < 0.5 else (second, first)
+
+
+def enc_merge(first, second):
+    return [PROP, 7] + list(first) + list(second)
+
+
 # ---------------------------------------------------------------- the run
 
 RULE = ("structured random hit sets: refine_hmmscan_results (both modes) with 1-8 fragments over 1-4 profiles (lengths 10..100, "
@@ -401,12 +443,14 @@ RULE = ("structured random hit sets: refine_hmmscan_results (both modes) with 1-
         "group and conflict boundaries of overlap_limit (+-1), hits shorter than the limit, duplicates, missing cutoff, empty list; "
         "filter_result_multiple and filter_results on 1-3 genes with up to 8 hits, overlaps of 19..22 around the limit 20, equal "
         "scores, scores around the -1 default, set iteration order of the overlap groups chosen by the generator through the "
-        "objects' hashes; filter_nonterminal_docking_domains around the 50-residue limits.  Every refine/hmmer input is also run "
+        "objects' hashes; filter_nonterminal_docking_domains around the 50-residue limits; HMMResult.merge on pairs of hits with "
+        "equal starts, nested, overlapping, disjoint, either operand first, rarely of different profiles.  Every refine/hmmer input is also run "
         "in a second, shuffled order on the implementation.  non-trivial = at least 3 input hits and a non-error result; "
         "distinct by flat encoding")
 
 CORPUS = [
-    # (fn, args) regression witnesses: F20 (equal starts), F31 (merge list drops earlier), F21, new findings
+    # (fn, args) regression witnesses: F21 (known), F31 (merge list drops earlier), F41 merge_truncates (both modes, and
+    # the merge itself in both operand orders), F20 (equal starts), F42 hmmer_first_short_duplicate, F43 hmmer_equal_start_order
     (1, ([(1, 10, 0), (1, 100, 0), (1, 10, 0)], [(0, 0, 0, 30, 1, 100), (0, 1, 15, 120, 1, 80), (0, 2, 16, 40, 1, 120)], [0, 0, 0])),
     (2, ([(1, 100, 0), (1, 100, 0)], [(0, 0, 0, 90, 1, 100), (0, 0, 500, 590, 1, 120), (0, 1, 100, 180, 1, 20)], [0, 0, 0])),
     (1, ([(1, 100, 0)], [(0, 0, 10, 20, 5, 20), (0, 0, 10, 80, 1, 100)], [0, 0])),
@@ -414,6 +458,10 @@ CORPUS = [
     (1, ([(1, 20, 0), (1, 30, 0)], [(0, 0, 5, 20, 1, 20), (0, 1, 5, 30, 1, 20)], [0, 0])),
     (3, (10, [10], [(0, 0, 5, 20)])),
     (3, (10, [10, 10], [(0, 0, 5, 20), (1, 3, 50, 40)])),
+    (3, (10, [100, 100, 100], [(2, 43, 52, 20), (0, 43, 45, 20)])),
+    (3, (10, [100, 100, 100], [(0, 43, 45, 20), (2, 43, 52, 20)])),
+    (7, ((0, 10, 20, 5, 20), (0, 10, 80, 1, 100))),
+    (7, ((0, 10, 50, 1, 100), (0, 0, 100, 5, 20))),
 ]
 
 
@@ -423,7 +471,7 @@ def run(chk):
     rng = chk.rng
     total = 60000 if chk.tier == "quick" else 800000
     known = known_classes()
-    cases, impl_outs, metas, order_cases = [], [], [], []
+    cases, impl_outs = [], []
     for i in range(total):
         r = rng.random()
         if i < len(CORPUS):
@@ -436,8 +484,10 @@ def run(chk):
             fn, args = 3, gen_hmmer(rng)
         elif r < 0.82:
             fn, args = 4, (gen_frm(rng),)
-        elif r < 0.95:
+        elif r < 0.94:
             fn, args = 5, gen_fr(rng)
+        elif r < 0.97:
+            fn, args = 7, gen_merge(rng)
         else:
             fn, args = 6, (gen_docking(rng),)
         shuffled_out = None
@@ -472,53 +522,58 @@ def run(chk):
             flat = enc_fr(*args)
             out = impl_fr(*args)
             size = sum(len(c) for c in args[2])
+        elif fn == 7:
+            flat = enc_merge(*args)
+            out = impl_merge(*args)
+            size = 3
         else:
             flat = enc_docking(args[0])
             out = impl_docking(args[0])
             size = sum(len(c[1]) for c in args[0])
         cases.append(flat)
         impl_outs.append(out)
-        metas.append((fn, args))
         chk.count(FN_NAME[fn])
         chk.count(f"size_{min(size, 9)}")
         if out[0] == 1:
             chk.count("error_" + common.ERR_NAME.get(out[1], str(out[1])))
-        if fn == 3 and shuffled_out != out and out[0] == 0 and shuffled_out[0] == 0 and \
-                set(quads(out)) == set(quads(shuffled_out)):
-            # same set of kept hits: only the order of equal-start hits (and with it which short hit is
-            # duplicated) follows the input order - the recorded classes, reproduced exactly by the model
-            chk.count("class_hmmer_equal_start_order")
-            order_cases.append(len(cases) - 1)
-        elif shuffled_out is not None and shuffled_out != out:
-            chk.violation("counterexample", f"{FN_NAME[fn]}: the result depends on the order of the input list",
-                          {"theorem_or_correspondence": "C13_order_independent / implementation on a shuffled input",
-                           "function": fn, "flat": flat, "input": describe(flat), "implementation": out,
-                           "implementation_on_shuffled_input": shuffled_out})
+        if shuffled_out is not None and shuffled_out != out:
+            what = f"{FN_NAME[fn]}: the result depends on the order of the input list"
+            if fn == 3:
+                chk.count("class_hmmer_equal_start_order")
+                what = REPAIRED_TEXT["hmmer_equal_start_order"]
+            if not any(v[1] == what for v in chk.violations):
+                chk.violation("counterexample", what,
+                              {"theorem_or_correspondence": ("C13_hmmer_order_independent" if fn == 3 else "C13_order_independent")
+                               + " / implementation on a shuffled input",
+                               "function": fn, "flat": flat, "input": describe(flat), "implementation": out,
+                               "implementation_on_shuffled_input": shuffled_out})
         chk.note_case(flat, size >= 3 and out[0] == 0,
                       {"function": FN_NAME[fn], "input": describe(flat), "implementation": out})
     model_outs = common.correspondence(chk, cases, impl_outs, spec_fn_offset=None, describe=describe)
     agree = [m == o for m, o in zip(model_outs, impl_outs)]
 
-    # the decidable specification on every implementation output of fn 1-3, and the finding classes
-    spec_idx = [i for i, c in enumerate(cases) if c[1] in (1, 2, 3)]
+    # the decidable specification on every implementation output of fn 1-3 and 7, and the finding classes
+    spec_idx = [i for i, c in enumerate(cases) if c[1] in (1, 2, 3, 7)]
     spec_cases = [[PROP, cases[i][1] + 100] + cases[i][2:] + impl_outs[i] for i in spec_idx]
     verdicts = common.run_driver(spec_cases)
-    class_idx = [i for i in spec_idx if cases[i][1] in (1, 2)]
-    class_out = dict(zip(class_idx, common.run_driver([[PROP, cases[i][1] + 110] + cases[i][2:] for i in class_idx])))
     for i, verdict in zip(spec_idx, verdicts):
         fn = cases[i][1]
         replay = {"function": fn, "flat": cases[i], "input": describe(cases[i]), "implementation": impl_outs[i],
                   "model": model_outs[i], "spec_verdict_on_implementation_output": verdict}
-        if len(verdict) < 3 or verdict == [-999]:
+        if len(verdict) != {1: 5, 2: 5, 3: 3, 7: 1}[fn] or verdict == [-999]:
             chk.violation("broken-correspondence", f"{FN_NAME[fn]}: the implementation's output does not decode",
                           dict(replay, theorem_or_correspondence="spec decoder"))
             continue
-        if fn in (1, 2):
-            _ok, is_sorted, provenance, margin = verdict
-            truncating = class_out[i] == [1]
-            if truncating:
+        if fn == 7:
+            if verdict != [1]:
                 chk.count("class_merge_truncates")
-                finding(chk, known, "merge_truncates", agree[i], replay)
+                repaired(chk, "merge_truncates", "C13_merge_spans", replay)
+            continue
+        if fn in (1, 2):
+            _ok, is_sorted, provenance, margin, coverage = verdict
+            if not coverage:
+                chk.count("class_merge_truncates")
+                repaired(chk, "merge_truncates", "C13_merge_keeps_complete_all", replay)
             if not is_sorted:
                 chk.violation("counterexample", f"{FN_NAME[fn]}: output not ordered by start",
                               dict(replay, theorem_or_correspondence="C13_sorted"))
@@ -535,25 +590,16 @@ def run(chk):
                               dict(replay, theorem_or_correspondence="C13_hmmer_no_overlap"))
             if not nodup:
                 chk.count("class_hmmer_first_short_duplicate")
-                finding(chk, known, "hmmer_first_short_duplicate", agree[i], replay)
-    for i in order_cases:
-        distinct = set(metas[i][1][2])
-        starts = [h[1] for h in distinct]
-        replay = {"function": 3, "flat": cases[i], "input": describe(cases[i]), "implementation": impl_outs[i],
-                  "model": model_outs[i]}
-        if len(set(starts)) == len(starts):
-            chk.violation("counterexample", "hmmer.remove_overlapping: the result depends on the order of the input list "
-                          "although no two input hits start at the same position",
-                          dict(replay, theorem_or_correspondence="C13_hmmer order independence"))
-        else:
-            finding(chk, known, "hmmer_equal_start_order", agree[i], replay)
+                repaired(chk, "hmmer_first_short_duplicate", "C13_hmmer_no_extra_copies", replay)
     chk.crosscheck_vm(cases, model_outs)
     return chk.finish(RULE)
 
 
-def quads(out):
-    """ the hits of an encoded hmmer result """
-    return [tuple(out[2 + 4 * k:6 + 4 * k]) for k in range(out[1])]
+def repaired(chk, cls, theorem, replay):
+    """ a case of a repaired finding class: always a counterexample (reported once per class) """
+    if not any(v[2].get("finding_class") == cls for v in chk.violations):
+        chk.violation("counterexample", REPAIRED_TEXT[cls],
+                      dict(replay, theorem_or_correspondence=theorem, finding_class=cls))
 
 
 def finding(chk, known, cls, faithful, replay):
@@ -607,13 +653,15 @@ def decode_args(flat):
         order = [tuple(take(6))[0] for _ in range(take())]
         cds = [[tuple(take(6)) for _ in range(take())] for _ in range(take())]
         return eqgs, order, cds
+    if fn == 7:
+        return tuple(take(5)), tuple(take(5))
     return ([(take(), [tuple(take(4)) for _ in range(take())]) for _ in range(take())],)
 
 
 def run_impl(fn, args):
     if fn in (1, 2):
         return impl_refine(fn, *args)
-    return {3: impl_hmmer, 4: impl_frm, 5: impl_fr, 6: impl_docking}[fn](*args)
+    return {3: impl_hmmer, 4: impl_frm, 5: impl_fr, 6: impl_docking, 7: impl_merge}[fn](*args)
 
 
 def replay(chk, path):
@@ -628,14 +676,19 @@ def replay(chk, path):
     print("model             :", model)
     print("recorded implementation:", doc.get("implementation"))
     verdict = None
-    if fn in (1, 2, 3) and out[0] == 0:
+    still = model != out
+    if fn in (1, 2, 3, 7) and out[0] == 0:
         verdict = common.run_driver([[PROP, fn + 100] + flat[2:] + out])[0]
         print("spec verdict on the implementation's output:", verdict)
-    still = model != out or (verdict is not None and verdict[0] == 0 and
-                             not ({"greedy_replacement_margin", "hmmer_first_short_duplicate"} & known_classes()))
-    if fn in (1, 2):
-        truncating = common.run_driver([[PROP, fn + 110] + flat[2:]])[0] == [1]
-        print("a merge of the run truncates (class merge_truncates):", truncating)
-        still = still or (truncating and "merge_truncates" not in known_classes())
+        bits = list(verdict[1:]) if len(verdict) > 1 else list(verdict)
+        if fn in (1, 2) and len(bits) == 4 and "greedy_replacement_margin" in known_classes():
+            bits[2] = 1   # the pairwise margin is the recorded finding F21
+        still = still or not all(bits)
+    if fn in (1, 2, 3):
+        args = decode_args(flat)
+        hits = list(args[1] if fn != 3 else args[2])
+        again = run_impl(fn, (args[0], hits[::-1], [0] * len(hits)) if fn != 3 else (args[0], args[1], hits[::-1]))
+        print("implementation on the reversed input:", again)
+        still = still or again != out
     print("still violates" if still else "no longer violates")
     return 1 if still else 0
